@@ -67,6 +67,36 @@ def gen_case(rng, tier, ks=None):
     return {"ks": ks, "default": default, "ops": ops}
 
 
+def nodelike_case(rng, ks=None, default=None, level=None):
+    """values that are byte-for-byte bodies of internal nodes: 2^level aligned neighbouring keys all set to the body of the
+    default node one level above the leaves ( keccak(default) * 2 ), or of a higher default node, or of a stored node. Leaves
+    and inner nodes share one hash domain; a tree that recognises "empty subtree" hashes, caches nodes by hash or follows a value
+    as if it were a pair of child hashes is misled only by such values."""
+    ks = ks or rng.choice([1, 1, 2])
+    default = rng.choice([b"", b"d", b"\x00" * 32]) if default is None else default
+    level = level or rng.choice([1, 1, 2])
+    d = [keccak(default)]
+    for _ in range(3):
+        d.append(keccak(d[-1] + d[-1]))
+    V = d[level - 1] + d[level - 1]           # body of the default node `level` levels above the leaves
+    base = bytearray(rng.randrange(256) for _ in range(ks))
+    base[-1] &= 0xFF ^ ((1 << level) - 1)
+    group = [bytes(base[:-1] + bytes([base[-1] | i])) for i in range(1 << level)]
+    other = bytes(rng.randrange(256) for _ in range(ks))
+    ops = []
+    for k in group:
+        ops.append(("set", k, V))
+        ops += [("get", k), ("exists", k), ("calcroot", k)]
+    for k in group:
+        ops += [("get", k), ("branch", k), ("calcroot", k)]
+    ops += [("set", other, b"v"), ("get", group[0]), ("reopen",), ("get", group[-1]), ("calcroot", group[-1])]
+    ops += [("set", group[0], b"w"), ("get", group[-1]), ("calcroot", group[0])]
+    for k in group + [other]:
+        ops.append(("delete", k))
+    ops.append(("root",))
+    return {"ks": ks, "default": default, "ops": ops}
+
+
 def guard(f):
     try:
         return f()
@@ -295,7 +325,9 @@ def check(tier, seed):
     R.gate = C.proof_gate("C14")
     rng = random.Random(seed)
     n = 60 if tier == "quick" else 1200
-    cases = corpus() + [gen_case(rng, tier) for _ in range(n)]
+    cases = corpus() + [nodelike_case(random.Random(3), 1, b"", 1), nodelike_case(random.Random(4), 1, b"d", 2)]
+    cases += [nodelike_case(rng) for _ in range(2 if tier == "quick" else 25)]
+    cases += [gen_case(rng, tier) for _ in range(n)]
     cases += [gen_case(rng, tier, ks) for ks in ([20, 32] if tier == "quick" else [20, 32] * 8 + list(range(4, 20)))]
     terms, spec_terms = [], []
     for case in cases:
